@@ -65,6 +65,26 @@ def annotation_desc(t) -> dict:
     return {"nul": nul, "container": container, "inul": inul, "leaf": leaf_type_desc(t), "leaf_type": t}
 
 
+RD_NA = {"status": "n/a", "same_class": True, "value": project.NULL}
+
+
+def resolved_default(f, fs: dict, leaf_type) -> dict:
+    """What the library resolves as the default of a tagged field (explicit or implicit)."""
+    from kio.serial._implicit_defaults import get_tagged_field_default
+    try:
+        v = get_tagged_field_default(f)
+    except Exception as e:  # noqa: BLE001
+        return {"status": "raised:" + type(e).__name__, "same_class": True, "value": project.NULL}
+    same = True
+    if fs["kind"] == "struct" and not fs["arr"] and v is not None:
+        same = type(v) is leaf_type
+    try:
+        val = project.project_value(v, fs)
+    except Exception:  # noqa: BLE001
+        return {"status": "unprojectable", "same_class": same, "value": project.NULL}
+    return {"status": "ok", "same_class": same, "value": val}
+
+
 def describe_class(cls: type) -> dict:
     hints = typing.get_type_hints(cls)
     params = cls.__dataclass_params__
@@ -88,7 +108,9 @@ def describe_class(cls: type) -> dict:
                 dflt_ok = False
         elif f.default_factory is not dataclasses.MISSING:
             dflt_ok = False
-        fields.append({"name": f.name, "container": a["container"], "family": a["leaf"]["family"],
+        rd = resolved_default(f, fs, a["leaf_type"]) if fs["tag"] >= 0 else RD_NA
+        fields.append({"name": f.name, "rd": rd, "rd_again": rd,
+                       "container": a["container"], "family": a["leaf"]["family"],
                        "leaf_module": a["leaf"]["module"], "leaf_name": a["leaf"]["mro"][0],
                        "meta_keys": sorted(str(k) for k in f.metadata.keys()),
                        "dflt_projectable": dflt_ok, "fs": fs})
@@ -144,6 +166,18 @@ def snapshot() -> dict:
             ok, err = try_build(c)
             d["buildable"], d["build_error"] = ok, err
             classes.append(d)
+    # once more after every reader and writer has been derived: the resolved default of a tagged field
+    # is a function of the field alone
+    by_sid = {d["sid"]: d for d in classes}
+    for mod in mods:
+        for c in project.module_classes(mod):
+            d = by_sid.get(project.sid_of(c))
+            if d is None:
+                continue
+            hints = typing.get_type_hints(c)
+            for f, fd in zip(dataclasses.fields(c), d["fields"]):
+                if fd["fs"]["tag"] >= 0:
+                    fd["rd_again"] = resolved_default(f, fd["fs"], annotation_desc(hints[f.name])["leaf_type"])
     return {"classes": classes, "modules": modules}
 
 
